@@ -66,18 +66,22 @@ structure Node where
   deriving Repr, Inhabited
 
 /-- `DuplicatingGraph._duplicate_graph`: placeholders for all views downstream of `tensor` (DFS);
-returns nodes in creation order -/
+returns nodes in creation order.  A failure (a view that still holds a gradient makes
+`make_placeholder_tensor` assert) happens *outside* the guarded region of `_in_place_op`: the heap as it is at
+that moment — with the placeholders created so far already routed into the graph — is what remains. -/
 def duplicate (fuel : Nat) (h : Heap) (live : List Nat) (basePh : Nat) (tensor : Nat)
-    (nodes : List Node) : Except Err (Heap × List Node) :=
+    (nodes : List Node) : Except (Err × Heap) (Heap × List Node) :=
   match fuel with
   | 0 => .ok (h, nodes)
   | fuel + 1 =>
     let children := liveChildren h live tensor
     if children.isEmpty then .ok (h, nodes)
     else
-      let r : Except Err (Heap × List Node) := children.foldlM (fun (acc : Heap × List Node) child =>
-        match makePlaceholder acc.1 child (some basePh) with
-        | .error e => Except.error e
+      let r : Except (Err × Heap) (Heap × List Node) := children.foldlM (fun (acc : Heap × List Node) child =>
+        -- child.null_grad(): a gradient of the pre-mutation view is discarded
+        let h0 := acc.1.modT child ({ · with grad := none, viewGrad := none })
+        match makePlaceholder h0 child (some basePh) with
+        | .error e => Except.error (e, h0)
         | .ok (h, p) => duplicate fuel h live basePh child (acc.2 ++ [Node.mk child p (some tensor)])) (h, nodes)
       match r with
       | .error e => .error e
@@ -99,9 +103,11 @@ def DupGraph.placeholderIfExists (g : DupGraph) (t : Nat) : Nat :=
   | none => t
 
 /-- `DuplicatingGraph(base)` -/
-def mkDupGraph (h : Heap) (live : List Nat) (base : Nat) : Except Err (Heap × DupGraph) :=
+def mkDupGraph (h : Heap) (live : List Nat) (base : Nat) : Except (Err × Heap) (Heap × DupGraph) :=
+  -- base.null_grad()
+  let h := h.modT base ({ · with grad := none, viewGrad := none })
   match makePlaceholder h base (h.t base).base with
-  | .error e => .error e
+  | .error e => .error (e, h)
   | .ok (h, p) =>
     match duplicate h.fuel h live p base [⟨base, p, none⟩] with
     | .error e => .error e
@@ -257,7 +263,7 @@ def inPlaceOp (h : Heap) (roots : List Nat) (self : Nat) (kind : Kind) (inputs :
     | none => h
   let selfIsBase := (h.t self).base.isNone
   let baseId := ((h.t self).base).getD self
-  let (h, g) ← withHeap h (mkDupGraph h live baseId)
+  let (h, g) ← mkDupGraph h live baseId
   -- mutant_base = graph.base.tensor.copy()
   let bt := h.t g.base.tensor
   let (h, mutArr) := h.copyArrK bt.data
